@@ -42,6 +42,26 @@ Definition stage_rel_b (M : transducer T) (incap : nat) (ins outs : list T) (clo
               (leqb outs (tr_run M 0 c) && (Nat.eqb n (length ins) || t_fin M (tr_state M 0 c)))))
           (seq 0 (S (length ins))).
 
+(* the same, together with the sequence of arguments the user's function was called with ([uses]: Stage.uses_of) *)
+Definition stage_rel_c (M : transducer T) (uses : nat -> bool) (incap : nat) (ins outs : list T)
+           (closed cancelled : bool) (calls : list T) : Prop :=
+  exists c, prefix c ins /\ length ins <= length c + incap /\
+            tr_live M 0 c = true /\
+            prefix outs (tr_run M 0 c) /\
+            (closed = true -> cancelled = false ->
+             outs = tr_run M 0 c /\ (c = ins \/ t_fin M (tr_state M 0 c) = true)) /\
+            calls = tr_calls M uses 0 c.
+
+Definition stage_rel_c_b (M : transducer T) (uses : nat -> bool) (incap : nat) (ins outs : list T)
+           (closed cancelled : bool) (calls : list T) : bool :=
+  existsb (fun n =>
+             let c := firstn n ins in
+             (length ins <=? n + incap) && tr_live M 0 c && prefix_b outs (tr_run M 0 c) &&
+             (negb closed || cancelled ||
+              (leqb outs (tr_run M 0 c) && (Nat.eqb n (length ins) || t_fin M (tr_state M 0 c)))) &&
+             leqb calls (tr_calls M uses 0 c))
+          (seq 0 (S (length ins))).
+
 (* ---- fan-in: the output is a merge of the sources: there is a tagging of the output positions by source
         index under which the sub-sequence tagged i is source i (order of each source kept, multiset union) ---- *)
 Fixpoint select (i : nat) (tags : list nat) (out : list T) : list T :=
